@@ -115,6 +115,9 @@ def run(ids):
     pids = registered()
     extra = [p for p in os.environ.get("EXTRA_CHECKS", "").split(",") if p]
     pids = pids + [p for p in extra if p not in pids]
+    only = [x for x in os.environ.get("ONLY_CHECKS", "").split(",") if x]
+    if only:
+        pids = [p for p in pids if p in only]  # a focused re-run after a rule change; printed only, last_run.json is left alone
     table = {}
     try:
         for sid in ids:
@@ -144,6 +147,8 @@ def run(ids):
     finally:
         if not in_repo:
             sh(f"git worktree remove --force {tree}", REPO)
+    if only:
+        return 0
     lr = os.path.join(VERIF, "seeded", "last_run.json")
     merged = json.load(open(lr)) if os.path.exists(lr) else {}
     merged.update(table)  # a partial run refreshes its own entries only
